@@ -41,6 +41,7 @@ type Clause struct {
 	Line  string
 	Cond  ast.Expr // modifies items: "item if cond"
 	Thorough bool  // proved (and, for invariants, assumed) only in the thorough tier; callers may rely on it in both tiers
+	Local    bool  // ensures only: proved for the function itself, NOT assumed at its call sites (keeps callers' queries small)
 }
 
 // CaseSplit: "cases <expr> in lo..hi" — the proof is split by the value of an integer expression of
@@ -194,6 +195,10 @@ func (ss *SpecSet) LoadSpecFile(path, pkgPath string) error {
 			if strings.HasPrefix(s, "thorough ") {
 				cl.Thorough = true
 				s = strings.TrimSpace(strings.TrimPrefix(s, "thorough "))
+			}
+			if strings.HasPrefix(s, "local ") {
+				cl.Local = true
+				s = strings.TrimSpace(strings.TrimPrefix(s, "local "))
 			}
 			// optional label "name: expr"
 			if j := strings.Index(s, ":"); j > 0 && isIdent(s[:j]) && !strings.HasPrefix(s[j:], "::") {
